@@ -35,8 +35,16 @@ func (r *Runner) RunHistory(histNo int, o HistOpts) error {
 	r.MaxBatch = o.MaxBatch
 	leaves := r.Cfg.LeafQueries()
 	insertOnly := true
+	hasText := false
+	for _, p := range r.Cfg.Props {
+		hasText = hasText || p.Type == models.IndexTypeText
+	}
 	observe := func(b int) {
 		r.Count()
+		if hasText && !r.Cfg.Mem && o.Rank > 0 {
+			// the persisted text index is the one the model derives from the stored documents
+			r.TextIxProj()
+		}
 		if o.GetAll {
 			r.Get(r.allIDs())
 		}
